@@ -6,8 +6,9 @@ replay_no_effect, at_most_once and done_iff_accepted for all histories, all orac
 
 Tie: correspondence stream `ccm` — the real cross_chain_manager entrance on a real native service
 (StateStore.HandleInvokeTransaction over OverlayDB/CacheDB), driven through the consensus-vote router (votes by
-planted validators up to and past the quorum, replays with the same and different heights) and, with garbage proofs,
-through every other router; the compiled Lean model (vote router modelled concretely, real SHA-256) must print the
+planted validators up to and past the quorum, replays with the same and different heights), through the eth router
+(synthetic state + storage tries, header installed by the real SyncGenesisHeader, real and tampered proofs) and, with
+garbage proofs, through every other router; the compiled Lean model (vote router modelled concretely, real SHA-256) must print the
 same verdict class, done mark, request record and cross-state leaves for every transaction.
 Search: the harness evaluates the property directly (a (chain,id) executed twice; done mark without execution).
 Static tie (T): extract/keyshapes mode `donetx` lists for every router handler the CheckDoneTx/PutDoneTx calls.
